@@ -202,10 +202,10 @@ func lindell17Sections() {
 		}
 	}
 	if onlyMatch("lindell17-dealer/k256") {
-		engine.Explore(l17Body(gK256, k256.NewCurve(), deal, 0), engine.Opts{Name: "lindell17-dealer/k256", Budget: engine.Budget(4*time.Minute, 15*time.Minute)})
+		engine.Explore(l17Body(gK256, k256.NewCurve(), deal, 0), engine.Opts{Name: "lindell17-dealer/k256", Budget: engine.Budget(4*time.Minute, 10*time.Minute)})
 	}
 	if onlyMatch("lindell17-dealer/p256") {
-		engine.Explore(l17Body(gP256, p256.NewCurve(), []l17cfg{{e: t23, ids: ordOf(3)}, {e: cnf3, ids: ordOf(3)}}, 0), engine.Opts{Name: "lindell17-dealer/p256", Budget: engine.Budget(4*time.Minute, 15*time.Minute)})
+		engine.Explore(l17Body(gP256, p256.NewCurve(), []l17cfg{{e: t23, ids: ordOf(3)}, {e: cnf3, ids: ordOf(3)}}, 0), engine.Opts{Name: "lindell17-dealer/p256", Budget: engine.Budget(4*time.Minute, 10*time.Minute)})
 	}
 	if engine.Thorough() && onlyMatch("lindell17-dkg/k256") {
 		var t22 catalog.Entry
@@ -215,6 +215,6 @@ func lindell17Sections() {
 			}
 		}
 		dkg := []l17cfg{{e: t22, ids: ordOf(2), dkg: true}, {e: t23, ids: ordOf(3), dkg: true}, {e: cnf3, ids: ordOf(3), dkg: true}}
-		engine.Explore(l17Body(gK256, k256.NewCurve(), dkg, 3), engine.Opts{Name: "lindell17-dkg/k256", Serial: true, Procs: 3, CrashTrace: true, Engine: "SCHED", Budget: engine.Budget(5*time.Minute, 30*time.Minute)})
+		engine.Explore(l17Body(gK256, k256.NewCurve(), dkg, 3), engine.Opts{Name: "lindell17-dkg/k256", Serial: true, Procs: 3, CrashTrace: true, Engine: "SCHED", Budget: engine.Budget(5*time.Minute, 15*time.Minute)})
 	}
 }
